@@ -230,6 +230,10 @@ def other_tool_pairs():
     add("symlink.contents", "contents", sl, mut(sl, contents="s2"), e2e=True, target=["l1"], observe=("l1", "@s2"))
     add("symlink.output", "outputs", sl, mut(sl, outputs=["l2"]), e2e=True, target=["l1"], target_b=["l2"],
         observe=("l2", "@s1"))
+    slp = mut(sl, attr_link_output_path="l2")
+    add("symlink.link-output-path-added", "link-output-path", sl, slp, e2e=True, target=["l1"], observe=("l2", "@s1"))
+    add("symlink.link-output-path-changed", "link-output-path", slp, mut(sl, attr_link_output_path="l3"), e2e=True,
+        target=["l1"], observe=("l3", "@s1"))
     add("symlink.input", "inputs", sl, mut(sl, inputs=["s2"]))
     add("symlink.input-added", "inputs", sl, mut(sl, inputs=["s1", "s2"]))
     add("symlink.contents-input-boundary", "contents|inputs", mut(sl, contents="ab", inputs=["c"]),
